@@ -121,6 +121,60 @@ fn build(body: &[(&'static str, Vec<u8>)], isr: usize, enable_bit: bool, ei: boo
     }
 }
 
+/// REF-ISA memory that logs the accesses of one instruction.
+struct LogMem {
+    inner: sw::BusMem,
+    log: Vec<(u8, bool)>,
+}
+
+impl refmodel::isa::Mem for LogMem {
+    fn read(&mut self, a: u8) -> u8 {
+        self.log.push((a, false));
+        self.inner.read(a)
+    }
+    fn write(&mut self, a: u8, v: u8) {
+        self.log.push((a, true));
+        self.inner.write(a, v)
+    }
+}
+
+/// The property speaks about main programs that an interrupt *can* be transparent to: a main program
+/// that overwrites code, the routine's counter cell, or that touches the stack area below its own SP
+/// (where entry sequences and routines push) observes the interrupt by construction. Decided on the
+/// uninterrupted run under REF-ISA, access by access; such programs are counted and left out.
+fn well_formed(p: &Prog) -> Result<(), String> {
+    use refmodel::isa::{step, Outcome};
+    let case = Case { cpu: Cpu { r: [0, 0, 0], pc: 0, fr: 0, sp: 0 }, scratch: (0, 0), ram: p.ram, inputs: [0; 4], di1: 0 };
+    let mut mem = LogMem { inner: case.refmem(), log: vec![] };
+    let mut cpu = case.cpu;
+    let mut latch = false;
+    for _ in 0..2000 {
+        if cpu.pc == p.end {
+            return Ok(());
+        }
+        let before = cpu;
+        mem.log.clear();
+        let info = step(&mut cpu, &mut mem, &mut latch);
+        if !matches!(info.outcome, Outcome::Done) {
+            return Err(format!("halts at {:#04x}", before.pc));
+        }
+        let lo_sp = info.sp_values.iter().cloned().chain([before.sp, cpu.sp]).min().unwrap();
+        for &(a, w) in &mem.log {
+            if w && a < p.end.wrapping_add(2) {
+                return Err(format!("instruction at {:#04x} writes into code at {:#04x}", before.pc, a));
+            }
+            if a == CNT {
+                return Err(format!("instruction at {:#04x} touches the routine's counter cell", before.pc));
+            }
+            // SP == 0 only before the LDSP of the prologue
+            if before.sp != 0 && (0xD4..=0xEF).contains(&a) && a < lo_sp {
+                return Err(format!("instruction at {:#04x} touches {:#04x}, below its stack pointer {:#04x}", before.pc, a, lo_sp));
+            }
+        }
+    }
+    Err("does not reach END".into())
+}
+
 fn machine(p: &Prog) -> Machine {
     let case = Case { cpu: Cpu { r: [0, 0, 0], pc: 0, fr: 0, sp: 0 }, scratch: (0, 0), ram: p.ram, inputs: [0; 4], di1: 0 };
     case.machine()
@@ -405,9 +459,20 @@ struct Out {
     frozen_agree: u64,
     by_count: BTreeMap<u32, u64>,
     bad: BTreeMap<String, Vec<(String, String)>>,
+    programs: u64,
+    ill_formed: u64,
+    ill_sample: Vec<String>,
 }
 
 fn check_prog(pi: usize, p: &Prog, pairs: bool, out: &mut Out) {
+    if let Err(why) = well_formed(p) {
+        out.ill_formed += 1;
+        if out.ill_sample.len() < 2 {
+            out.ill_sample.push(format!("[{}] {}", p.name, why));
+        }
+        return;
+    }
+    out.programs += 1;
     let t0 = match mc::catch(|| trace0(p)) {
         Ok(Ok(t)) => t,
         Ok(Err(e)) => {
@@ -486,6 +551,10 @@ pub fn run() {
             if pi < fam.len() && fam[pi].name.replace(' ', "_") == kv["name"] {
                 found = true;
                 let p = &fam[pi];
+                if let Err(why) = well_formed(p) {
+                    println!("program is outside the family (not checked): {}", why);
+                    break;
+                }
                 let t0 = trace0(p).expect("program runs");
                 let r = interrupted(p, &t0, &trig);
                 println!("{} triggers {:?}: {:?}", p.name, trig, r);
@@ -518,6 +587,13 @@ pub fn run() {
         all.normative += o.normative;
         all.unspecified += o.unspecified;
         all.frozen_agree += o.frozen_agree;
+        all.programs += o.programs;
+        all.ill_formed += o.ill_formed;
+        for x in o.ill_sample {
+            if all.ill_sample.len() < 6 {
+                all.ill_sample.push(x);
+            }
+        }
         for (k, v) in o.by_count {
             *all.by_count.entry(k).or_default() += v;
         }
@@ -548,6 +624,9 @@ pub fn run() {
     ctx.set("exhaustive", true);
     ctx.set("bounds", format!("{} programs (prologue + every body sequence of length <= {} over 25 instruction kinds x ISRs {{RETI, counter, MUL+CALL}}, + enable-bit-clear and EI-less variants); deviation bound 2 (pairs on {} of the programs)", fam.len(), if quick { 2 } else { 3 }, if quick { "1/4" } else { "1/2" }));
     ctx.set("schedules", all.runs);
+    ctx.set("programs_checked", all.programs);
+    ctx.set("programs_left_out_not_transparent_by_construction", all.ill_formed);
+    ctx.set("programs_left_out_examples", Json::Arr(all.ill_sample.iter().map(|s| Json::Str(s.clone())).collect()));
     ctx.set("routine_entries_observed", all.entries);
     ctx.set("entries_required_by_statement", all.normative);
     ctx.set("presses_in_unspecified_windows", all.unspecified);
@@ -568,6 +647,7 @@ pub fn run() {
         a == b && a.is_some()
     });
     ctx.assume("a key press counts as 'while enabled' when the MICR key-edge bit and IE are set at the press and IE is still set when the press is sampled at the end of the instruction in flight; presses in other windows (IE clear at the press or cleared before sampling, press while the routine runs) may or may not enter (0 or 1), everything else is still checked");
+    ctx.assume("main programs that (decided access by access on the uninterrupted run under REF-ISA) write into code, touch the routine's counter cell or touch the stack area below their own stack pointer are not interrupt-transparent by construction and are left out (counted in programs_left_out_not_transparent_by_construction)");
     ctx.assume("sampling edges are recognised from the public Signals of the current control word and the memory-wait latch (hook accessor)");
     ctx.finish();
 }
